@@ -84,6 +84,7 @@ import (
 	"cmp"
 	"context"
 	"crypto/rand"
+	"encoding/hex"
 	"errors"
 	"fmt"
 	"io"
@@ -409,20 +410,41 @@ func (c *fsCache) set(key string, entry []byte) error {
 		}
 	}
 	name := c.fn.FileName(key)
-	if err := c.root.MkdirAll(filepath.Dir(name), 0o755); err != nil {
+	dir := filepath.Dir(name)
+	if err := c.root.MkdirAll(dir, 0o755); err != nil {
 		return err
 	}
-	f, err := c.root.Create(name)
+	// Write to a temporary file and rename it into place, so that neither a
+	// concurrent Get nor one after a failed or interrupted write ever observes
+	// a partial value: it sees the previous value (or none) or the new one.
+	suffix := make([]byte, 8)
+	if _, err := rand.Read(suffix); err != nil {
+		return err
+	}
+	tmp := filepath.Join(dir, tempPrefix+hex.EncodeToString(suffix))
+	f, err := c.root.OpenFile(tmp, os.O_WRONLY|os.O_CREATE|os.O_EXCL, 0o644)
 	if err != nil {
 		return err
 	}
-	defer f.Close()
 	_, err = f.Write(entry)
-	if err != nil {
-		return err
+	if err == nil {
+		err = f.Sync()
 	}
-	return f.Sync()
+	if cerr := f.Close(); err == nil {
+		err = cerr
+	}
+	if err == nil {
+		err = c.root.Rename(tmp, name)
+	}
+	if err != nil {
+		_ = c.root.Remove(tmp)
+	}
+	return err
 }
+
+// tempPrefix starts the names of files that are being written; it cannot start
+// the name of a key's file (not in the base64url alphabet).
+const tempPrefix = ".tmp-"
 
 func (c *fsCache) Delete(key string) error {
 	ctx, cancel := context.WithTimeout(context.Background(), c.timeout)
@@ -491,7 +513,7 @@ func (c *fsCache) keys(prefix string) ([]string, error) {
 		if err != nil {
 			return err
 		}
-		if d.IsDir() {
+		if d.IsDir() || strings.HasPrefix(d.Name(), tempPrefix) {
 			return nil
 		}
 		key, err := c.fnk.KeyFromFileName(
